@@ -229,8 +229,8 @@ func (x *executor) builtinSpec(ev *evaluator, name string, args []Expr) Val {
 // ---- maps (minimal: constant global maps; general maps in maps.go) ---------------
 
 type constMap struct {
-	keys []constant.Value
-	vals []constant.Value
+	keys   []constant.Value
+	vals   []constant.Value
 	kt, vt types.Type
 }
 
